@@ -502,12 +502,88 @@ def data_printing(world: World, res: Result, tier: str):
     res.add(ob)
 
 
+def nested_types(world: World, res: Result, tier: str):
+    """Type::to_doc on nested list / pair types from MIR over the document model: `(list T)`, `(pair A B)` with the keywords and
+    the order of the grammar rule type_info, recursively"""
+    ob = Obligation("types/nested", "discharged", "")
+    ex = world.executor(timeout_ms=20000, max_paths=200, max_steps=20000)
+    ex.stubs.update(DOC_STUBS)
+    try:
+        f = world.fn("Type", "to_doc")
+        kws = grammar_type_keywords()
+    except Unsupported as e:
+        ob.status, ob.detail = "undecided", str(e)
+        res.add(ob)
+        return
+    inv = {v: k for k, v in kws.items()}
+    leaves = [v.name for v in world.variants("Type") if not v.fields and v.name != "Bls12_381MlResult"]
+
+    def mk(t):
+        if isinstance(t, str):
+            return Adt("Type", t, ())
+        if t[0] == "list":
+            return world.adt("Type", "List", world.rc(mk(t[1])))
+        return world.adt("Type", "Pair", world.rc(mk(t[1])), world.rc(mk(t[2])))
+
+    def ref(t):
+        if isinstance(t, str):
+            return [inv.get(t, "?" + t)]
+        if t[0] == "list":
+            return ["(list"] + ref(t[1]) + [")"]
+        return ["(pair"] + ref(t[1]) + ref(t[2]) + [")"]
+    shapes = []
+    for a in leaves:
+        shapes.append(("list", a))
+        for b in leaves[:4]:
+            shapes.append(("pair", a, b))
+            shapes.append(("pair", b, a))
+    shapes += [("list", ("list", "Integer")), ("list", ("pair", "Integer", "ByteString")), ("pair", ("list", "Data"), ("pair", "Bool", "Unit")),
+               ("pair", ("pair", "String", "Integer"), ("list", ("list", "ByteString")))]
+    n = 0
+    for shp in shapes:
+        st = ex.new_state()
+        try:
+            outs = ex.run(f, [ex.alloc(st, mk(shp))], st)
+        except Unsupported as e:
+            ob.status, ob.detail = "undecided", f"{e} (type {shp})"
+            continue
+        for o in outs:
+            if o.kind != "return":
+                ob.status, ob.detail = ("violated" if o.kind == "panic" else "undecided"), f"Type::to_doc({shp}): {o.msg}"
+                if o.kind == "panic":
+                    ob.finding_key = "types nested: panic"
+                continue
+            try:
+                toks = _as_doc(ex, o.state, o.value).data
+            except Unsupported as e:
+                ob.status, ob.detail = "undecided", str(e)
+                continue
+            got = []
+            for tk in toks:
+                if tk[0] == "t":
+                    b = S._concrete_bytes(tk[1].s)
+                    got.append(b.decode() if b is not None else "?")
+            n += 1
+            if got != ref(shp):
+                ob.status = "violated"
+                ob.detail = f"type {shp} is printed as {' '.join(got)!r}; the grammar reads that as another type (expected {' '.join(ref(shp))!r})"
+                ob.finding_key = "types nested: wrong text"
+                ob.model = {"type": str(shp), "printed": got}
+    if ob.status == "discharged":
+        ob.detail = f"{n} nested list/pair types print with the grammar's keywords in the grammar's order"
+        ob.witness = n > 0
+    ob.queries, ob.solver_s = ex.queries, round(ex.solver_s, 3)
+    res.functions.update(ex.encoded)
+    res.add(ob)
+
+
 def run(tier: str, seed: int, only=None) -> Result:
     res = Result("C15", tier, seed, "model_checking")
     res.assumptions = [
         "mirsym trusted base; Formatter modelled as the text written so far (write_fmt/write_str append), RcDoc::text as the identity on strings",
-        "PARTIAL: only the name tables shared by printer and parser are decided (builtin names for a symbolic tag, leaf type keywords); "
-        "layout, numbers, string escapes, nested constants and the peg parser as a whole are outside the claim",
+        "PARTIAL: decided are the name tables shared by printer and parser (builtin names for a symbolic tag, type keywords incl. nested list/pair "
+        "types) and the data syntax the printer emits (token stream of Constant::to_doc_list_plutus_data over a document model, logical constructor index); "
+        "layout, numbers, string escapes and the peg parser as a whole are outside the claim",
         "the grammar side of types/leaf is read from the peg rule's source text (keyword -> Type variant), not executed",
     ]
     res.bounds = {"builtin tags": "all declared discriminants (symbolic)", "types": "all field-less variants of uplc::ast::Type"}
@@ -518,6 +594,8 @@ def run(tier: str, seed: int, only=None) -> Result:
         builtin_names(world, res)
     if not only or only == "types":
         type_keywords(world, res)
+    if not only or only == "types2":
+        nested_types(world, res, tier)
     if not only or only == "data":
         data_printing(World(("uplc",)), res, tier)  # pallas types by their summaries (as in C04), not from pallas-codec's MIR
     kf = KnownFindings()
